@@ -63,12 +63,19 @@ def _drivers():
         "dup-parent-late": (lambda: [T.mid(1), T.mid(T.ident(1))], ("ok", [101, 101]), [{}]),
         "dup-rparent-late": (lambda: [T.rmid(1), T.rmid(T.ident(1))], ("ok", [101, 101]), [{"r": 1}, {"r": 2}]),
         "spawn-races-renominated": (lambda: [T.rleaf(1), T.rleaf(2), T.spawn_r(3)], ("ok", [101, 102, 103]), [{"r": 1}, {"r": 2}]),
+        # a job waits behind two duplicates: the second duplicate is served by CSE/cache when re-nominated and consumes nothing
+        "waiter-behind-duplicates": (lambda: [T.rleaf(9), T.rleaf(1), T.rleaf(T.ident(1)), T.rleaf(T.ident(2))],
+                                     ("ok", [109, 101, 101, 102]), [{"r": 1}]),
+        # duplicates that both waited for limits and whose child needs everything: a reservation kept by the collapsed twin would deadlock
+        "dup-wait-then-big-child": (lambda: [T.r2leaf(9), T.rdup_big(1), T.rdup_big(T.ident(1))], ("ok", [209, 501, 501]), [{"r": 2}]),
+        # a limited job fails while another waits for the limit; the failure is caught and nothing else completes afterwards
+        "fail-releases-to-waiter": (lambda: seq([catch_all([T.rfail(1), T.rleaf(2)], ValueError, T.recover_all)]), ("ok", [["E", 102]]), [{"r": 1}]),
         "cse-none": (lambda: [T.nocache(1), T.nocache(T.ident(1))], ("ok", [1, 1]), [{}]),
     }
     return D
 
 
-TWO_RUN = ["dup-late", "nested", "child-fails-after-parent-done", "caught-failures"]
+TWO_RUN = ["dup-late", "nested", "child-fails-after-parent-done", "caught-failures", "fail-releases-to-waiter"]
 # drivers that are also explored with Scheduler.run(cache=False) (cache scope downgraded to CSE: no backend single-reduction hits)
 NO_CACHE = ["dup-late", "dup-nolimit", "dup-both-wait", "dup-parent-late", "dup-rparent-late", "nested-dup", "failing-twin"]
 
@@ -79,6 +86,10 @@ def cases(tier: str):
     for name, (_, _, limit_cfgs) in D.items():
         for lim in limit_cfgs:
             out.append({"driver": name, "limits": lim, "runs": 1})
+    if tier == "quick":
+        for c in out:
+            if c["driver"] in ("waiter-behind-duplicates",):
+                c["only_bound"] = 2  # the complete tree of this 6-job driver is explored in the thorough tier
     for name in NO_CACHE:
         for lim in D[name][2][: (1 if tier == "quick" else 3)]:
             out.append({"driver": name, "limits": lim, "runs": 1, "cache": False})
@@ -306,9 +317,13 @@ def explore_case(arg):
                 children.append([0] * i + [alt])
         exhaustive, used_bound = True, None
     else:
-        st = evloop.explore(lambda p: run_scenario(case, p), None, cap, on_exec, start_prefix=start_prefix)
-        exhaustive = not st.capped
-        used_bound = None
+        if case.get("only_bound"):
+            st = evloop.explore(lambda p: run_scenario(case, p), case["only_bound"], 10**9, on_exec, start_prefix=start_prefix)
+            exhaustive, used_bound = False, case["only_bound"]
+        else:
+            st = evloop.explore(lambda p: run_scenario(case, p), None, cap, on_exec, start_prefix=start_prefix)
+            exhaustive = not st.capped
+            used_bound = None
         if st.capped:
             viol.clear(); outcomes.clear(); cgs.clear(); samples.clear()
             st = evloop.explore(lambda p: run_scenario(case, p), bound, 10**9, on_exec, start_prefix=start_prefix)
